@@ -101,6 +101,8 @@
 #define SPEC_ERR_MONOTONE(o) \
 __CPROVER_ensures((o)->error == __CPROVER_old((o)->error) || (o)->error == 1) \
 __CPROVER_ensures((o)->error != __CPROVER_old((o)->error) ==> (o)->error_msg[0] != 0) \
-__CPROVER_ensures(__CPROVER_old((o)->error_msg[0]) != 0 ==> (o)->error_msg[0] != 0)
+__CPROVER_ensures(__CPROVER_old((o)->error_msg[0]) != 0 ==> (o)->error_msg[0] != 0) \
+/* a message is only ever written together with the flag */ \
+__CPROVER_ensures((o)->error_msg[0] == __CPROVER_old((o)->error_msg[0]) || (o)->error == 1)
 
 #endif
